@@ -151,7 +151,7 @@ pub fn exec(op: &str, a: &[Vec<u8>]) -> Option<Resp> {
                 return Some(Resp::Rej);
             }
             let e = (a[0] == a[1]) as u8;
-            Resp::Ok(vec![e, e])
+            Resp::Ok(vec![e, e, e, (a[0][..] == Aff::IDENTITY.compress()[..]) as u8])
         }
         _ => return None,
     })
